@@ -412,6 +412,14 @@ func init() {
 				desc = fmt.Sprintf("panic-after@%d/%d", k, n)
 				mut = func(r *world.Reply) { r.ReturnAfter, r.Panic = k, http.ErrAbortHandler }
 			}
+			if c.Free("declares-length", 2) == 1 {
+				// ... after having declared the honest length of the whole body (what every net/http
+				// handler that knows its body does): fewer bytes than declared is a fault any client of
+				// the backend would see - also when NO byte follows the head and zero bytes would decode
+				inner := mut
+				desc += "-of-declared"
+				mut = func(r *world.Reply) { inner(r); r.HasCL, r.ContentLength = true, int64(n) }
+			}
 		case 1: // every flag byte value
 			if !b.respIsEnv {
 				c.Skip()
@@ -537,7 +545,7 @@ func init() {
 		ID:    "C09",
 		Level: "fault_enumeration",
 		Rule: "For one pairing per adapter path: the request body cut at every byte offset (transport error, and clean EOF where no length is declared), every value 0..255 of every envelope flag byte, " +
-			"length fields -1/+1/x2/2^32-1/+5, every single-bit flip of every payload byte, mis-stated Content-Length, every proper prefix of a further frame after the complete request; and on the response side: handler return - and handler panic (http.ErrAbortHandler) - after every prefix, every flag value, " +
+			"length fields -1/+1/x2/2^32-1/+5, every single-bit flip of every payload byte, mis-stated Content-Length, every proper prefix of a further frame after the complete request; and on the response side: handler return - and handler panic (http.ErrAbortHandler) - after every prefix (with and without the honest length declared up front), every flag value, " +
 			"length mutations, every single-bit flip, mis-stated Content-Length, missing end, duplicated end / data after end. A case is non-trivial when the fault lies strictly inside a frame or payload.",
 		Assume: []string{"reference backend rejects malformed requests as a real server of its protocol would", "strict ResponseWriter model mirrors net/http"},
 		Scenarios: []Scenario{
